@@ -274,10 +274,12 @@ def check_single(sc, tr, rc):
         if stopped:
             just += 1
             continue
-        if last_cycle_wall is not None and s[4] >= last_cycle_wall:
+        if last_cycle_wall is not None and s[4] >= last_cycle_wall and s[4] - last_cycle_wall < 1.5e9:
             # the run reached its END TIME on its own (a loaded machine can get there with producers still busy): the engine's own
-            # shutdown refuses sends before run() returns. Sound as a justification only because no cycle ran after the refusal;
-            # a refusal that is followed by further deliveries is still reported below (thorough tier, seed 7, c16_7_544)
+            # shutdown refuses sends before run() returns. Sound as a justification only because no cycle ran after the refusal AND
+            # the loop was still delivering less than 1.5 s before it (a loop that sat idle with producers parked until the end
+            # time - a lost wake-up, rt2-C17 - is still reported); a refusal followed by further deliveries is reported too
+            # (thorough tier, seed 7, c16_7_544)
             just += 1
             C["refusals_at_engine_end_time"] = C.get("refusals_at_engine_end_time", 0) + 1
             continue
